@@ -149,6 +149,44 @@ def run(rep, tier):
     c05.rule_relative(_SubReport(rep, 'R5', 'R7'), idx, 'quick')
     c05.rule_oversized(_SubReport(rep, 'R5', 'R7b'), idx, 'R7b')
     c05.rule_data_after_growth(_KeyPrefix(_SubReport(rep, 'R5', 'R3d'), 'data-after-growth:'), idx, 'R3d')
+    # R7: the word a DATA line shows is the word in the image
+    rep.rule('R7', 'a DATA directive is written to the image as the 32-bit little-endian representation of the value its listing line '
+             'shows (getValue()), whether the emitter writes the word at once or byte by byte -- for zero, small, mixed, negative and '
+             'extreme values', floor=8)
+    from ..ivinterp import NeedSplit as _NS, Thrown as _Th
+    where_e = pos(idx.func('hexasm::CodeGen::emitProgramBin').node) + ' hexasm::CodeGen::emitProgramBin'
+    for v in (0, 7, 42, 0x12345678, 0x7FFFFFFF, -1, -2, -65537, -0x12345678, -0x80000000):
+        key = 'DATA %d' % v
+        try:
+            Bd = c05.Builder(idx)
+            d = Bd.data(v)
+            Bd.emit([d], 0, concrete_start=8)
+            evs = list(Bd.state['bytes'])
+        except (_NS, AnalysisBroken, _Th) as e:
+            rep.undecided('R7', key, 'emission of a DATA word not interpreted: %s' % (getattr(e, 'what', None) or e), where_e)
+            continue
+        out, unknown = [], False
+        for b in evs:
+            if isinstance(b, tuple) and b[0] == 'write':
+                sz, src = b[1][0], (b[2] if len(b) > 2 else None)
+                if isinstance(sz, IV) and sz.concrete() and isinstance(src, IV) and src.concrete():
+                    out += [((src.lo & ((1 << src.w) - 1)) >> (8 * i)) & 0xFF for i in range(sz.lo)] if sz.lo * 8 <= src.w else [None] * sz.lo
+                    unknown = unknown or sz.lo * 8 > src.w
+                else:
+                    unknown = True
+            elif isinstance(b, IV) and b.concrete():
+                out.append(b.lo & 0xFF)
+            else:
+                unknown = True
+        want = [((v & 0xFFFFFFFF) >> (8 * i)) & 0xFF for i in range(4)]
+        if unknown:
+            rep.undecided('R7', key, 'the bytes written for the word are not concrete in the model: %r' % (evs[:4],), where_e)
+            continue
+        got = out[-4:] if len(out) >= 4 else out
+        rep.add('R7', key, got == want and len(out) == 4, where_e,
+                'image bytes %s' % ' '.join('%02X' % x for x in out) if got == want and len(out) == 4 else
+                'the listing shows DATA %d, the image gets the bytes %s (little-endian %s expected at an aligned offset)' % (
+                    v, ' '.join('%02X' % x for x in out), ' '.join('%02X' % x for x in want)), nontrivial=False)
     # R3: value classes for one mnemonic
     emit = idx.func('hexasm::CodeGen::emitProgramBin')
     classes = []
